@@ -173,6 +173,17 @@ enum class {id} : {enum_type} {{
     )
 }
 
+/// Default member initializer of an enum typed field: the first tag that the generated
+/// enum declares. Range and default tags have no enumerator.
+fn enum_initializer(id: &str, tags: &[ast::Tag]) -> String {
+    tags.iter()
+        .find_map(|tag| match tag {
+            ast::Tag::Value(t) => Some(format!("{{{}::{}}}", id, t.id)),
+            _ => None,
+        })
+        .unwrap_or_else(|| "{}".to_string())
+}
+
 fn generate_enum_to_text(id: &str, tags: &[ast::Tag]) -> String {
     let mut tag_cases = Vec::new();
     for tag in tags {
@@ -1913,7 +1924,12 @@ fn generate_packet_view(
                 } else {
                     let type_decl = scope.typedef.get(type_id).unwrap();
                     if let ast::DeclDesc::Enum { tags, .. } = &type_decl.desc {
-                        field_members.push(format!("{} {}_{{{}::{}}};", ty, id, ty, tags[0].id()));
+                        field_members.push(format!(
+                            "{} {}_{};",
+                            ty,
+                            id,
+                            enum_initializer(ty, tags)
+                        ));
                         field_accessors.push(format!(
                             "    {} Get{}() const {{ _ASSERT_VALID(valid_); return {}_; }}\n",
                             ty, accessor_name, id
@@ -2104,7 +2120,12 @@ fn generate_packet_builder(
                 } else {
                     let type_decl = scope.typedef.get(type_id).unwrap();
                     if let ast::DeclDesc::Enum { tags, .. } = &type_decl.desc {
-                        field_members.push(format!("{} {}_{{{}::{}}};", ty, id, ty, tags[0].id()));
+                        field_members.push(format!(
+                            "{} {}_{};",
+                            ty,
+                            id,
+                            enum_initializer(ty, tags)
+                        ));
                     } else {
                         field_members.push(format!("{} {}_;", ty, id));
                     }
@@ -2355,7 +2376,12 @@ fn generate_struct_declaration(
                 } else {
                     let type_decl = scope.typedef.get(type_id).unwrap();
                     if let ast::DeclDesc::Enum { tags, .. } = &type_decl.desc {
-                        field_members.push(format!("{} {}_{{{}::{}}};", ty, id, ty, tags[0].id()));
+                        field_members.push(format!(
+                            "{} {}_{};",
+                            ty,
+                            id,
+                            enum_initializer(ty, tags)
+                        ));
                     } else {
                         field_members.push(format!("{} {}_;", ty, id));
                     }
